@@ -6,6 +6,8 @@
 From Bita Require Import Model.Base Model.ChunkIndex Model.CloneOutput Model.CloneSpec.
 From Bita Require Import Model.PlannerIter.
 From Bita Require Import Proofs.Planner Proofs.PlannerIterEq Proofs.CloneCorrect Proofs.CloneFinal.
+From Bita Require Import Model.Chunker Model.Proto Model.Archive Model.Compress Model.CloneArchive Model.CloneBytes.
+From Bita Require Import Proofs.ProtoRoundTrip Proofs.RoundTrip Proofs.CloneBytesCorrect.
 
 (* Planner + executor: for EVERY current layout [cur] of the file (any prior content: the index only has
    to describe chunks that really are in the file, without overlaps) and every target with disjoint
@@ -50,6 +52,38 @@ Theorem C03_explicit_stack_planner_is_recursive_planner :
   forall cur tgt, reorder_ops_iter cur tgt = reorder_ops cur tgt.
 Proof. exact reorder_ops_iter_eq. Qed.
 
+(* The in-place update at the level of BYTES (Model/CloneBytes.v): EVERY prior content [prior] of the output file,
+   scanned with the archive's chunker and hashed as `bita clone --seed-output` does (the index the scan builds
+   is no longer a hypothesis), then re-ordered in place, completed from the seeds and the archive and resized:
+   the result is exactly the source. Assumption: no collision of the truncated hash on the chunks of the
+   source and the chunks found in the scanned files. *)
+Theorem C03_inplace_bytes_exact :
+  forall (H comp : list N -> list N) (decomp : N -> list N -> option (list N)),
+    (forall x, lenN (H x) = 64) -> (forall x, Forall (fun b => b < 256) (H x)) ->
+    forall src o bytes prior seeds,
+      opts_ok o -> bytes_ok src -> lenN src < 18446744073709551616 -> lenN bytes < 18446744073709551616 ->
+      codec_ok comp decomp o -> few_chunks o src -> no_collision H o src prior true seeds ->
+      compress_model H comp src o = Ok bytes ->
+      open_and_clone_bytes H decomp bytes prior true seeds = Ok src.
+Proof. intros H comp decomp HL HB src o bytes prior seeds. exact (open_and_clone_bytes_correct H comp decomp HL HB src o bytes prior true seeds). Qed.
+
+(* the old output and the seeds do not influence the result *)
+Theorem C03_old_output_irrelevant_bytes :
+  forall (H comp : list N -> list N) (decomp : N -> list N -> option (list N)),
+    (forall x, lenN (H x) = 64) -> (forall x, Forall (fun b => b < 256) (H x)) ->
+    forall src o bytes prior1 inplace1 seeds1 prior2 inplace2 seeds2,
+      opts_ok o -> bytes_ok src -> lenN src < 18446744073709551616 -> lenN bytes < 18446744073709551616 ->
+      codec_ok comp decomp o -> few_chunks o src ->
+      no_collision H o src prior1 inplace1 seeds1 -> no_collision H o src prior2 inplace2 seeds2 ->
+      compress_model H comp src o = Ok bytes ->
+      exists a r1 r2, try_init H (file_read_at bytes) = Ok a
+        /\ clone_bytes H decomp a (file_payload bytes) prior1 inplace1 seeds1 = Ok r1
+        /\ clone_bytes H decomp a (file_payload bytes) prior2 inplace2 seeds2 = Ok r2
+        /\ o_err (cr_state r1) = None /\ o_err (cr_state r2) = None
+        /\ takeN (lenN src) (o_file (cr_state r1)) = src
+        /\ takeN (lenN src) (o_file (cr_state r2)) = takeN (lenN src) (o_file (cr_state r1)).
+Proof. exact seeds_and_old_output_irrelevant_bytes. Qed.
+
 (* non-vacuity: a swap with overlap -- source = B A A (chunks A = [1;2], B = [3;4;5]), prior = A B *)
 Example C03_example :
   let D := fun k => if k =? 0 then [1;2] else [3;4;5] in
@@ -62,3 +96,5 @@ Proof. vm_compute. repeat split; reflexivity. Qed.
 Print Assumptions C03_planner_executor_correct.
 Print Assumptions C03_inplace_exact.
 Print Assumptions C03_explicit_stack_planner_is_recursive_planner.
+Print Assumptions C03_inplace_bytes_exact.
+Print Assumptions C03_old_output_irrelevant_bytes.
